@@ -21,7 +21,7 @@ from . import common as C
 
 EXPR_CTX = ["return HOLE", "local r = HOLE", "r = HOLE", "f(HOLE)", "f(1, HOLE)", "o:m(HOLE)", "local r = (HOLE)",
             "local r = { HOLE }", "local r = { HOLE, 2 }", "local r = { k = HOLE }", "local r = { [HOLE] = 1 }",
-            "local r = t[HOLE]", "t[HOLE] = 1", "local r = (HOLE).x", "local r = (HOLE)(1)", "local r = -HOLE",
+            "local r = t[HOLE]", "t[HOLE] = 1", "local r = (HOLE).x", "local r = (HOLE)(1)", "local r = - HOLE",
             "local r = not HOLE", "local r = HOLE + 1", "local r = 1 .. HOLE", "local r = HOLE and 1",
             "local r = 1 or HOLE", "if HOLE then a() end", "if c then a() elseif HOLE then b() end",
             "while HOLE do break end", "repeat until HOLE", "for i = HOLE, 2 do end", "for i = 1, 2, HOLE do end",
@@ -229,8 +229,6 @@ def model_stream(ctx):
         k = len(cases)
         index[k] = (rule, src)
         cases.append((k, "(%s, (%s, %s))" % (RULES[rule][0], t_in, t_out)))
-    if ctx.tier == "debug":
-        print(unparsable)
     if len(unparsable) > len(jobs) // 20:
         raise C.CheckBroken("%d templates do not parse, e.g. %s" % (len(unparsable), unparsable[0]))
     stats = C.run_coq_stats(ctx.prop, PREAMBLE, cases, chunk=120, tag="stats_model")
